@@ -6,7 +6,7 @@ Import ListNotations.
 From GA.Base Require Import Bytes Align Dec.
 From GA.Gen Require Import Alpha.
 From GA.Model Require Import Sites.
-From GA.Proofs Require Import SitesProofs RefCoordProofs.
+From GA.Proofs Require Import SitesProofs RefCoordProofs PartitionProofs.
 Local Open Scope Z_scope.
 
 (* SubAlign succeeds exactly on windows inside the alignment (boundary values
@@ -117,6 +117,43 @@ Theorem C04_partition_blocks :
      forall pi, In i (positions_of parts pi) <-> pi = nth (Z.to_nat i) parts (-1)).
 Proof. intros parts. split; [intros pi; apply positions_of_sorted | apply positions_partition]. Qed.
 Print Assumptions C04_partition_blocks.
+
+(* AddRange (a line `name = start-end\modulo` of a partition file): refused, with nothing changed, when the
+   bounds are wrong; otherwise it succeeds exactly when every addressed site start, start+modulo, ... <= end
+   is still free, gives exactly those sites the index of the name (first occurrence, or a new last index) and
+   leaves every other site as it was; on failure some addressed site already belonged to a partition *)
+Theorem C04_add_range :
+  forall ps pname s e m ps' ok,
+  ps_wf ps -> add_range ps pname s e m = (ps', ok) ->
+  ((s < 0 \/ ps_len ps <= e \/ m <= 0) -> ok = false /\ ps' = ps) /\
+  ((0 <= s /\ e < ps_len ps /\ 0 < m) ->
+     ps_wf ps' /\ ps_len ps' = ps_len ps /\
+     (ok = true ->
+        (forall j, 0 <= j -> addressed s e m j ->
+           nth (Z.to_nat j) (ps_parts ps) (-1) = -1 /\ nth (Z.to_nat j) (ps_parts ps') (-1) = range_index ps pname) /\
+        (forall j, 0 <= j -> ~ addressed s e m j ->
+           nth (Z.to_nat j) (ps_parts ps') (-1) = nth (Z.to_nat j) (ps_parts ps) (-1))) /\
+     (ok = false -> exists j, addressed s e m j /\ nth (Z.to_nat j) (ps_parts ps) (-1) <> -1)).
+Proof. exact add_range_spec. Qed.
+Print Assumptions C04_add_range.
+
+(* so the block Split cuts for that partition gains exactly the addressed sites *)
+Theorem C04_add_range_block :
+  forall ps pname s e m ps',
+  ps_wf ps -> add_range ps pname s e m = (ps', true) ->
+  forall i, 0 <= i < ps_len ps ->
+    (In i (positions_of (ps_parts ps') (range_index ps pname)) <->
+     addressed s e m i \/ In i (positions_of (ps_parts ps) (range_index ps pname))).
+Proof. exact add_range_block. Qed.
+Print Assumptions C04_add_range_block.
+
+(* non-vacuity: a fresh partition set is well formed; 1-9\3 addresses sites 1, 4, 7; 4-4 then collides *)
+Example C04_add_range_nonvacuous :
+  ps_wf (new_pset 10) /\
+  let r := add_range (new_pset 10) [x70] 1 9 3 in
+  snd r = true /\ ps_parts (fst r) = [-1; 0; -1; -1; 0; -1; -1; 0; -1; -1] /\
+  snd (add_range (fst r) [x71] 4 4 1) = false.
+Proof. split; [apply new_pset_wf; discriminate | exact add_range_example]. Qed.
 
 (* reference coordinates: a FINITE statement, by exhaustive evaluation in the kernel - for every
    reference row of length 1..7 over {A, C, gap} and every window (s, l) of its ungapped residues, the
